@@ -204,13 +204,48 @@ Section Proofs.
   Qed.
 
   (* ---------- copy ---------- *)
-  (* T3a: fresh id, equal content (and an equal pending backup), not live *)
+  Notation cpu := (copy_unrepaired Obj C get_c set_c new_o).
+  Definition reid (i : ident) (b : state C) : state C := St i (sc b) (sb b).
+
+  (* T3a: fresh id, equal content, an equal pending backup that carries the id of the copy,
+     not live *)
   Theorem copy_spec : forall nid f,
-    gs (cp nid f) = St nid (get_c (fo f)) (fbackup f)
+    gs (cp nid f) = St nid (get_c (fo f)) (option_map (reid nid) (fbackup f))
     /\ fid (cp nid f) = nid /\ flive (cp nid f) = false.
   Proof.
     intros nid f. unfold copy, serializable_copy, from_state, new_flow, get_state, set_state; simpl.
-    rewrite set_get. auto.
+    rewrite set_get. destruct (fbackup f) as [[j c b]|]; simpl; auto.
+  Qed.
+
+  Definition own (f : flowT) : Prop := forall b, fbackup f = Some b -> sid b = fid f.
+
+  Lemma copy_own : forall nid f, own (cp nid f).
+  Proof.
+    intros nid f b. unfold copy, serializable_copy, from_state, new_flow, get_state, set_state; simpl.
+    destruct (fbackup f) as [[j c x]|]; simpl; intros E; inversion E; reflexivity.
+  Qed.
+
+  Lemma revert_id_own : forall f, own f -> fid (rv f) = fid f.
+  Proof.
+    intros f W. unfold revert. destruct (fbackup f) as [[j c b]|] eqn:B; [|reflexivity].
+    simpl. apply (W (St j c b) B).
+  Qed.
+
+  (* reverting a copy keeps the id of the copy, whatever was pending in the original *)
+  Theorem copy_revert_keeps_id : forall nid f, fid (rv (cp nid f)) = nid.
+  Proof.
+    intros nid f. rewrite (revert_id_own _ (copy_own nid f)).
+    destruct (copy_spec nid f) as [_ [I _]]. exact I.
+  Qed.
+
+  (* the defect that was repaired: the copy of a flow with a pending backup, once reverted, had
+     the id of the original *)
+  Theorem unrepaired_copy_revert_collides : forall nid f,
+    fbackup f = None -> fid (rv (cpu nid (bk f))) = fid f.
+  Proof.
+    intros nid f E. unfold backup. rewrite E.
+    unfold copy_unrepaired, serializable_copy, from_state, new_flow, get_state, set_state, revert; simpl.
+    reflexivity.
   Qed.
 
   (* ---------- the store: operations on one flow leave the others alone ---------- *)
@@ -280,18 +315,9 @@ Section Proofs.
   Qed.
 
   (* ---------- ids stay distinct ---------- *)
-  Definition own (f : flowT) : Prop := forall b, fbackup f = Some b -> sid b = fid f.
-
   (* every copy receives an id not in use *)
   Definition fresh_op (s : list flowT) (o : op Obj) : Prop :=
     match o with Copy _ nid => ~ In nid (map fid s) | _ => True end.
-
-  (* and no flow is reverted to a saved state that carries another id *)
-  Definition guard_op (s : list flowT) (o : op Obj) : Prop :=
-    match o with
-    | Revert i => forall f, nth_error s i = Some f -> own f
-    | _ => True
-    end.
 
   Fixpoint hist_ok (P : list flowT -> op Obj -> Prop) (s : list flowT) (h : list (op Obj)) : Prop :=
     match h with
@@ -299,40 +325,57 @@ Section Proofs.
     | o :: r => P s o /\ hist_ok P (stp s o) r
     end.
 
-  Lemma upd_map_fid : forall s i g,
-    (forall f, nth_error s i = Some f -> fid (g f) = fid f) ->
-    map fid (updT i g s) = map fid s.
+  Lemma fstep_own : forall f p, own f -> own (fs f p) /\ fid (fs f p) = fid f.
   Proof.
-    induction s as [|f r IH]; intros [|i] g H; simpl; auto.
-    - rewrite (H f); reflexivity.
-    - rewrite IH; auto.
+    intros f p W. destruct p as [e|lv| | |]; simpl.
+    - split; [|reflexivity]. intros b E. simpl in E. apply (W b E).
+    - split; [|reflexivity]. intros b E. simpl in E. apply (W b E).
+    - split; [|apply backup_keeps]. unfold backup. destruct (fbackup f) as [x|] eqn:B.
+      + exact W.
+      + intros b E. simpl in E. inversion E. reflexivity.
+    - split; [|apply revert_id_own; exact W]. intros b E. rewrite revert_clears in E. discriminate.
+    - split; [|reflexivity]. intros b E. unfold set_state, get_state in E. simpl in E.
+      apply (W b E).
   Qed.
 
-  Lemma step_ids : forall s o, fresh_op s o -> guard_op s o ->
-    NoDup (map fid s) -> NoDup (map fid (stp s o)).
+  Lemma upd_own : forall s i g,
+    (forall f, own f -> own (g f) /\ fid (g f) = fid f) ->
+    Forall own s -> map fid (updT i g s) = map fid s /\ Forall own (updT i g s).
   Proof.
-    intros s o Fr G ND. destruct o; simpl in *;
-      try (rewrite upd_map_fid; [exact ND|]; intros f E; simpl; try reflexivity).
-    - apply backup_keeps.
-    - unfold revert. destruct (fbackup f) as [[j c b]|] eqn:B; [|reflexivity].
-      simpl. apply (G f E (St j c b) B).
-    - destruct (nth_error s i) as [f|]; [|exact ND].
-      rewrite map_app. destruct (copy_spec nid f) as [_ [I _]]. cbn [map]. rewrite I.
-      apply NoDup_rev in ND. rewrite <- (rev_involutive (map fid s ++ [nid])).
-      apply NoDup_rev. rewrite rev_app_distr. simpl. constructor; [|exact ND].
-      rewrite <- in_rev. exact Fr.
+    induction s as [|f r IH]; intros i g H W; [destruct i; simpl; auto|].
+    inversion W as [|x l Wf Wr]; subst. destruct i as [|i]; simpl.
+    - destruct (H f Wf) as [A B]. rewrite B. split; [reflexivity|constructor; assumption].
+    - destruct (IH i g H Wr) as [A B]. rewrite A. split; [reflexivity|constructor; assumption].
   Qed.
 
-  (* T3c (partial): with fresh copy ids, ids stay pairwise distinct through every history in
-     which no flow is reverted to a saved state that carries another id *)
-  Theorem ids_distinct_partial : forall h s,
-    NoDup (map fid s) ->
-    hist_ok (fun s o => fresh_op s o /\ guard_op s o) s h ->
-    NoDup (map fid (rn s h)).
+  Lemma step_ids : forall s o, fresh_op s o ->
+    NoDup (map fid s) -> Forall own s ->
+    NoDup (map fid (stp s o)) /\ Forall own (stp s o).
   Proof.
-    induction h as [|o h IH]; intros s ND H; [exact ND|].
-    destruct H as [[Fr G] H]. unfold run in *. simpl. apply IH; [|exact H].
-    apply step_ids; assumption.
+    intros s o Fr ND W. destruct (fop_of o) as [[i p]|] eqn:E.
+    - rewrite (step_local s o i p E).
+      destruct (upd_own s i (fun f => fs f p) (fun f Wf => fstep_own f p Wf) W) as [A B].
+      rewrite A. split; assumption.
+    - destruct o; simpl in E; try discriminate. simpl in *.
+      destruct (nth_error s i) as [f|]; [|split; assumption]. split.
+      + rewrite map_app. destruct (copy_spec nid f) as [_ [I _]]. cbn [map]. rewrite I.
+        apply NoDup_rev in ND. rewrite <- (rev_involutive (map fid s ++ [nid])).
+        apply NoDup_rev. rewrite rev_app_distr. simpl. constructor; [|exact ND].
+        rewrite <- in_rev. exact Fr.
+      + apply Forall_app. split; [exact W|]. constructor; [apply copy_own|constructor].
+  Qed.
+
+  (* T3c: with fresh copy ids, ids stay pairwise distinct (and every saved state keeps carrying
+     the id of its own flow) through EVERY history of edits, backups, reverts, reloads and copies,
+     from any store in which that holds (e.g. any store of flows without pending backup) *)
+  Theorem ids_distinct : forall h s,
+    NoDup (map fid s) -> Forall own s ->
+    hist_ok fresh_op s h ->
+    NoDup (map fid (rn s h)) /\ Forall own (rn s h).
+  Proof.
+    induction h as [|o h IH]; intros s ND W H; [split; assumption|].
+    destruct H as [Fr H]. unfold run in *. simpl.
+    destruct (step_ids s o Fr ND W) as [A B]. apply IH; assumption.
   Qed.
 End Proofs.
 
@@ -363,20 +406,12 @@ Proof.
   - vm_compute. repeat split; try reflexivity. discriminate.
 Qed.
 
-(* T3c refuted at full strength: every copy id is fresh, yet two flows end up with the same id.
-   Backup flow 0, copy it (the copy carries the saved state with the id of flow 0), revert the
-   copy. *)
+(* the history that used to end with two flows sharing one id: backup flow 0, copy it, revert the
+   copy *)
 Definition collide_store : list tflow := [Flow 0 0 true None].
 Definition collide_hist : list (op N) := [Backup 0; Copy 0 1; Revert 1].
 
-Lemma ids_distinct_refuted :
-  exists (s : list tflow) (h : list (op N)),
-    NoDup (map fid s)
-    /\ hist_ok N N tget tset 0 (fun s o => fresh_op N N s o) s h
-    /\ ~ NoDup (map fid (run N N tget tset 0 s h)).
-Proof.
-  exists collide_store, collide_hist. split; [|split].
-  - simpl. constructor; [intros []|constructor].
-  - simpl. repeat split. intros [H|[]]. discriminate.
-  - vm_compute. intros H. inversion H as [|x l NI _]. apply NI. left. reflexivity.
-Qed.
+Lemma collide_hist_now_distinct :
+  map fid (run N N tget tset 0 collide_store collide_hist) = [0; 1]
+  /\ fid (revert N N tset (copy_unrepaired N N tget tset 0 1 (backup N N tget (Flow 0 0 true None)))) = 0.
+Proof. vm_compute. split; reflexivity. Qed.
